@@ -1,5 +1,5 @@
 """C18 - the LSS slave follows the CiA 305 state machine."""
-import random
+import random, zlib
 import framework as F
 import sim as S
 import gen
@@ -201,6 +201,11 @@ def step(res, sim, m, rq, fail):
             m.nmt = {1: 3, 2: 4, 128: 2}[cs]
         return True, False
     exp = m.request(rq)
+    store_fails = False
+    if exp[0] == "store" and getattr(m, "rng", None) is not None and m.rng.random() < 0.3:
+        # the application's store function reports a failure: the request is answered with error code 2 and nothing counts as stored
+        sim.cmd("fault lssstore 1")
+        store_fails = True
     evs = sim.rx(0x7E5, rq)
     tx = [(cid, dlc, d) for (t, cid, dlc, d, f) in S.txs(evs)]
     what = "request %s (LSS %s, NMT %d)" % (rq.hex(), "configuration" if m.mode == CONF else "waiting", m.nmt)
@@ -225,6 +230,13 @@ def step(res, sim, m, rq, fail):
         want = exp[1]
         if not tx or tx[0][2][:len(want)] != want:
             return fail("answer/%s" % ("missing" if not tx else "content"), what + ": answered %s, reference %s.." % (tx[0][2].hex() if tx else "nothing", want.hex())), False
+        return True, True
+    if exp[0] == "store" and store_fails:
+        if len(stores) != 1 or (int(stores[0][1]), int(stores[0][2])) != m.want_store:
+            return fail("store/arguments", what + ": COLssStore calls %r, reference %r" % (stores, m.want_store)), False
+        if not tx or tx[0][2][:2] != bytes([23, 2]):
+            return fail("answer/store-failed", what + ": the store function failed, answered %s, reference 1702.." % (tx[0][2].hex() if tx else "nothing")), False
+        res.counters["failed_stores"] += 1
         return True, True
     if exp[0] == "store":
         if len(stores) != 1 or (int(stores[0][1]), int(stores[0][2])) != m.want_store:
@@ -259,6 +271,7 @@ def run_seq(res, sim, ident, nid, seq, tag, sample=False):
     sim.cmd("restart"); sim.cmd("start")
     # the persistent LSS store survives 'restart' in the executor: clear it by storing nothing is impossible, so each sim is used for sequences without store, or re-created
     m = LModel(ident, nid)
+    m.rng = random.Random(zlib.crc32(b"|".join(repr(x).encode() if isinstance(x, tuple) else bytes(x) for x in seq))) if tag[0] == "rand" else None
     ok = [True]
     script = []
 
